@@ -179,7 +179,12 @@ def _ob_key(x):
                 None if x.left is None else tuple(ty_key(x.left)),
                 None if x.right is None else tuple(ty_key(x.right)))
     if hasattr(x, "name"):
-        return (x.name, getattr(x, "z", 0))
+        name = x.name
+        if type(name).__name__ in ("Over", "Under") and name is not x and not getattr(x, "z", 0):
+            # a slash type re-wrapped by another type class (rigid.Ty.__init__: Ob(x.name)) is
+            # still that object
+            return _ob_key(name)
+        return (name, getattr(x, "z", 0))
     return x
 
 
